@@ -247,6 +247,22 @@ class Recorder:
 
         def es_acq(xi, *a, **k):
             out = o_esacq(xi, *a, **k)
+            # "acquisition (lower-confidence-bound) value": every generation is scored with the SAME documented rule
+            # z = f_mu - sqrt(beta_t) f_s, beta_t depending on the evaluation count and the DIMENSION only (not on the batch)
+            try:
+                if R.cur_es is not None and len(a) >= 1 and (len(a) < 3 or a[2] is None) and k.get("sqrt_beta") is None and np.asarray(out[0]).size:
+                    t = float(a[0]) + 1.0
+                    nv = np.asarray(xi).shape[1]
+                    sb = math.sqrt(2 * 0.2 * math.log(nv * t ** 2 * math.pi ** 2 / (6 * 0.1)))
+                    z0, mu0, s0 = (np.asarray(v, dtype=float).reshape(-1) for v in out[:3])
+                    want = mu0 - sb * s0
+                    ok = np.isnan(want) | (np.abs(z0 - want) <= 1e-9 * (np.abs(want) + np.abs(sb * s0) + 1e-300))
+                    if not np.all(ok) and "lcb_bad" not in R.cur_es:
+                        j = int(np.argmin(ok))
+                        R.cur_es["lcb_bad"] = (f"generation of {z0.shape[0]} candidates: acquisition value {z0[j]} is not f_mu - sqrt(beta_t) f_s = {want[j]} "
+                                               f"(D={nv}, t={t}, sqrt(beta_t)={sb}, f_mu={mu0[j]}, f_s={s0[j]})")
+            except Exception as ex:      # never let the observer change the run
+                R.cur_es.setdefault("lcb_note", repr(ex)[:120]) if R.cur_es is not None else None
             if R.nan_rng is not None and R.cur_es is not None and np.asarray(out[0]).size and R.nan_rng.random() < 0.5:
                 # an acquisition function that fails on some candidates: NaN for a random subset (sometimes for all)
                 zz = np.array(out[0], dtype=float).copy()
@@ -513,6 +529,8 @@ def es_monitor(c):
     values = what acq_fcn_lcb returned on them.  NaN-valued survivors are ranked after every number (they can
     only be returned when no survivor has a number); NaN coordinates are reported by es_nan_monitor."""
     gens = c["gens"]
+    if c.get("lcb_bad"):
+        return "bad", c["lcb_bad"], "es-acquisition-not-lcb"
     if c.get("desync") or any(g[2] is None for g in gens) and c["exc"] is None:
         return "unobserved", "acq_fcn_lcb was not called on the filtered population", "es-unobserved"
     done = [g for g in gens if g[2] is not None]
